@@ -10,7 +10,7 @@ non-overlapping copy, free of NULL or live pointers only."""
 import os
 from lib import common as C
 from lib.pipeline import Finding
-from checks import faults as F
+from checks import faults as F, scenarios as S
 
 PROP = "C20"
 LEVEL = "proof"
@@ -58,6 +58,11 @@ def custom_run(ctx, res, cw):
         for params in ([], ["param i0 FIXMSZIP 1"], ["param i0 SALVAGE 1"]):
             base.append(([f"file x.cab {cab.hex()}", "new cab"] + params + ["open i0 x.cab", "extract i0 h0 0 o0", "extract i0 h0 1 o1", "extract i0 h0 1 o2",
                           "close i0 h0", "destroy i0"], dict(family="cab.missing-continuation", how="directed", kind="cab")))
+    # MSZIP blocks opening with matches into the previous block (copy() arguments when a decoder copies through the host)
+    xb = list(S.mszip_cross_block_cases(ctx.rng))
+    for (label, cab, kw, plain) in (xb[66:90] if ctx.tier == "quick" else xb):
+        base.append(([f"file x.cab {cab.hex()}", "new cab", "open i0 x.cab", "extract i0 h0 0 o0", "close i0 h0", "destroy i0"],
+                     dict(family="mszip.cross-block", how="directed", kind="cab", nofaults=True)))
     bpaths = [cw.add(["edges on"] + lines, meta) for lines, meta in base]
     prof = F.profile(ctx, bpaths)
     ncalls = 0
@@ -67,6 +72,7 @@ def custom_run(ctx, res, cw):
         res.cov["evaluations"] += 1
         for f in judge_run(cw.meta[p], blocks): (viol if f.kind == "violation" else mism).append((p, cw.meta[p], f))
         lines = [l for l in open(p).read().splitlines() if l != "edges on"]
+        if cw.meta[p].get("nofaults"): continue
         for (kind, k, mode) in F.fault_points(ctx, tot, per_kind_quick=2, exhaustive=cw.meta[p].get("exhaustive", False)):
             fl = f"fault {kind} {k}" + (f" {mode}" if mode else "")
             cw.add([fl] + lines, dict(cw.meta[p], fault=fl))
